@@ -113,9 +113,16 @@ func qtObserve(q *quadtree.Quadtree, e *qtEv, qs *qtQueries, bufs bool) {
 			}
 		})
 	} else {
-		for _, x := range q.InBound(nil, orb.Bound{Min: orb.Point{-1e9, -1e9}, Max: orb.Point{1e9, 1e9}}) {
-			xp := x.(*qtPtr)
-			e.Items = append(e.Items, [3]int{xp.id, xp.l[0], xp.l[1]})
+		all := q.InBound(nil, orb.Bound{Min: orb.Point{-1e9, -1e9}, Max: orb.Point{1e9, 1e9}})
+		for _, x := range all {
+			if xp, ok := x.(*qtPtr); ok && xp != nil {
+				e.Items = append(e.Items, [3]int{xp.id, xp.l[0], xp.l[1]})
+			} else {
+				e.Items = append(e.Items, [3]int{-1, 0, 0}) // a nil in the result: no model has such an item
+			}
+		}
+		for i := range all { // the result is ours: wiping it must not matter to anybody
+			all[i] = nil
 		}
 	}
 	q.VerifWalk(func(path []int, v orb.Pointer, cell orb.Bound) {
@@ -136,6 +143,22 @@ func qtObserve(q *quadtree.Quadtree, e *qtEv, qs *qtQueries, bufs bool) {
 			e.Tree = append(e.Tree, [2]int{code, row[0]})
 		}
 	})
+	// distance limits are handed over as slices that live for the whole observation (limits...): a query must not
+	// write to its caller's slice
+	lims := map[int][]float64{}
+	lim := func(md int) []float64 {
+		if l, ok := lims[md]; ok {
+			return l
+		}
+		lims[md] = []float64{qs.m.dist(md)}
+		return lims[md]
+	}
+	// a result belongs to the caller: what the caller does to it afterwards (here: wipes it) is nobody else's business
+	wipe := func(res []orb.Pointer) {
+		for i := range res {
+			res[i] = nil
+		}
+	}
 	for _, f := range qs.filters {
 		ff := accept(f)
 		for _, qp := range qs.pts {
@@ -162,16 +185,21 @@ func qtObserve(q *quadtree.Quadtree, e *qtEv, qs *qtQueries, bufs bool) {
 					case ff == nil && md == 0:
 						res = q.KNearest(buf, pt, k)
 					case ff == nil:
-						res = q.KNearest(buf, pt, k, qs.m.dist(md))
+						res = q.KNearest(buf, pt, k, lim(md)...)
 					case md == 0:
 						res = q.KNearestMatching(buf, pt, k, ff)
 					default:
-						res = q.KNearestMatching(buf, pt, k, ff, qs.m.dist(md))
+						res = q.KNearestMatching(buf, pt, k, ff, lim(md)...)
 					}
 					row := []int{qp[0], qp[1], k, md, f[0], f[1]}
 					for _, x := range res {
 						row = append(row, qtID(x))
 					}
+					if md != 0 && lim(md)[0] != qs.m.dist(md) {
+						row = append(row, -2) // the caller's limit slice was written to
+						lim(md)[0] = qs.m.dist(md)
+					}
+					wipe(res)
 					e.KNN = append(e.KNN, row)
 				}
 			}
@@ -192,6 +220,7 @@ func qtObserve(q *quadtree.Quadtree, e *qtEv, qs *qtQueries, bufs bool) {
 			for _, x := range res {
 				row = append(row, qtID(x))
 			}
+			wipe(res)
 			e.Inb = append(e.Inb, row)
 		}
 	}
